@@ -251,7 +251,7 @@ Lemma sys_inspect_inv : forall g s t p s' out,
   s_tcell s = Some t -> sys_inspect false g s (Some p) = (s', out) ->
   (exists m, is_anergic t = false /\ check (t_prof t) p <> [] /\ recall (s_mem s) p = Some m /\
              out = OutResp (mkResp (m_level m) (m_action m) S1NonSelf S2Cross [9] false) None /\
-             s' = s)
+             s' = set_mem s (touch_first (sig_matches p) (s_clock s) (s_mem s)))
   \/
   (exists t' r0, tcell_inspect t p = (t', r0) /\
                  out = OutResp (fst (after_treg g r0 (s_rec s))) (snd (after_treg g r0 (s_rec s))) /\
@@ -410,6 +410,11 @@ Proof.
   - inversion H; subst. cbn. eauto.
   - inversion H; subst. cbn. eauto.
   - inversion H; subst. cbn. eauto.
+  - destruct (mem_import _ _ _ _) as [mem' imp']. inversion H; subst. cbn. eauto.
+  - inversion H; subst. cbn. eauto.
+  - inversion H; subst. cbn. eauto.
+  - inversion H; subst. cbn. eauto.
+  - inversion H; subst. cbn. eauto.
   - inversion H; subst. eauto.
 Qed.
 
@@ -522,7 +527,7 @@ Fixpoint streak (tr : list (sys * op * outcome)) : Z :=
 Lemma streak_nonneg : forall tr, 0 <= streak tr.
 Proof.
   induction tr as [|[[s o] out] tr IH]; cbn [streak]; [lia|].
-  destruct o as [po| | | | | | |po| ]; try lia; try (destruct out; lia).
+  destruct o as [po| | | | | | | | | | | |po| ]; try lia; try (destruct out; lia).
   - destruct po; [|lia]. destruct out; try lia. destruct (s_tcell s); [|lia].
     destruct (nonempty _); lia.
   - destruct out; try lia. destruct r; lia.
@@ -546,7 +551,7 @@ Proof.
         rewrite Ht in Ht1. apply B; assumption. }
     destruct (sys_inspect_inv g s t p s' _ Ht H) as [[m [A [C [_ [O S']]]]]|[t' [r0 [TI [O S']]]]].
     + subst. cbn [streak]. rewrite Ht. apply nonempty_true in C. rewrite C.
-      rewrite Ht in Ht1. specialize (B t1 Ht1 A1). lia.
+      cbn in Ht1. rewrite Ht in Ht1. specialize (B t1 Ht1 A1). lia.
     + subst out. cbn [streak]. rewrite Ht. rewrite S' in Ht1. inversion Ht1; subst t1.
       unfold tcell_inspect in TI. destruct (is_anergic t) eqn:A.
       * inversion TI; subst. congruence.
@@ -558,6 +563,11 @@ Proof.
     cbn in Ht1. inversion Ht1; subst. cbn. lia.
   - inversion H; subst. cbn [streak]. cbn in Ht1. destruct (s_tcell s) as [t|] eqn:Ht; [|discriminate].
     cbn in Ht1. inversion Ht1; subst. cbn. lia.
+  - inversion H; subst. cbn [streak]. cbn in Ht1. auto.
+  - inversion H; subst. cbn [streak]. cbn in Ht1. auto.
+  - inversion H; subst. cbn [streak]. cbn in Ht1. auto.
+  - destruct (mem_import _ _ _ _) as [mem' imp']. inversion H; subst. cbn [streak]. cbn in Ht1. auto.
+  - inversion H; subst. cbn [streak]. cbn in Ht1. auto.
   - inversion H; subst. cbn [streak]. cbn in Ht1. auto.
   - inversion H; subst. cbn [streak]. cbn in Ht1. auto.
   - inversion H; subst. cbn [streak]. cbn in Ht1. auto.
@@ -685,7 +695,7 @@ Section Training.
     destruct (_ <? _); [inversion H|]. destruct (_ <=? _); [inversion H|].
     destruct (_ && _); [inversion H|]. inversion H; subst; clear H.
     set (t := fresh_tcell (train_profile rnd (g_tol g) p) 3 5).
-    set (s1 := mkSys (Some t) (s_mem s) (s_rec s)).
+    set (s1 := set_tcell s (Some t)).
     pose proof (trained_profile_accepts (g_tol g) p T R CN) as C.
     destruct (sys_step rnd false g s1 (OInspect (Some p))) as [s2 out] eqn:E.
     cbn [sys_step] in E.
@@ -885,9 +895,15 @@ Qed.
 (* action that belongs to the reported level                                *)
 
 Definition within_one_step (l : level) (a : action) : Prop := same_or_one_lower (level_action l) a.
-Definition mem_ok (mem : list msig) : Prop := Forall (fun m => within_one_step (m_level m) (m_action m)) mem.
-(* signatures stored from outside are themselves within one step *)
-Definition op_ok (o : op) : Prop := match o with OStore m => within_one_step (m_level m) (m_action m) | _ => True end.
+Definition sig_within (m : msig) : Prop := within_one_step (m_level m) (m_action m).
+Definition mem_ok (mem : list msig) : Prop := Forall sig_within mem.
+(* signatures stored / imported from outside are themselves within one step *)
+Definition op_ok (o : op) : Prop :=
+  match o with
+  | OStore m => sig_within m
+  | OImport items => Forall sig_within items
+  | _ => True
+  end.
 
 Lemma remove_nth_Forall : forall (A : Type) (P : A -> Prop) i (l : list A),
   Forall P l -> Forall P (remove_nth i l).
@@ -897,13 +913,50 @@ Proof.
   - destruct i; cbn; [exact Hl|]. constructor; [exact Hx|apply IH].
 Qed.
 
+Lemma touch_first_ok : forall f now mem, mem_ok mem -> mem_ok (touch_first f now mem).
+Proof.
+  intros f now mem H. induction H as [|x l Hx Hl IH]; cbn; [constructor|].
+  destruct (f x); constructor; auto.
+Qed.
+
+Lemma remove_first_ok : forall f mem, mem_ok mem -> mem_ok (remove_first f mem).
+Proof.
+  intros f mem H. induction H as [|x l Hx Hl IH]; cbn; [constructor|].
+  destruct (f x); [exact Hl|constructor; auto].
+Qed.
+
+Lemma prune_least_ok : forall mem, mem_ok mem -> mem_ok (prune_least mem).
+Proof. intros mem H. destruct mem; [constructor|]. unfold prune_least. apply remove_first_ok. exact H. Qed.
+
+Lemma mem_store_ok : forall cap now mem m, mem_ok mem -> sig_within m -> mem_ok (mem_store cap now mem m).
+Proof.
+  intros cap now mem m H W. unfold mem_store. apply Forall_app. split.
+  - destruct (cap <=? _); [apply prune_least_ok|]; exact H.
+  - constructor; [exact W|constructor].
+Qed.
+
+Lemma filter_ok : forall f mem, mem_ok mem -> mem_ok (filter f mem).
+Proof.
+  intros f mem H. induction H as [|x l Hx Hl IH]; cbn; [constructor|].
+  destruct (f x); [constructor|]; auto.
+Qed.
+
+Lemma mem_import_ok : forall cap items imp mem,
+  mem_ok mem -> Forall sig_within items -> mem_ok (fst (mem_import cap imp mem items)).
+Proof.
+  intros cap items. induction items as [|m r IH]; intros imp mem H F; cbn [mem_import fst]; [exact H|].
+  inversion F; subst. destruct (_ <? _); apply IH; auto.
+  apply Forall_app. split; [exact H|]. constructor; [assumption|constructor].
+Qed.
+
 Lemma sys_inspect_mem : forall g s t p s' out,
   s_tcell s = Some t -> sys_inspect false g s (Some p) = (s', out) ->
-  s' = s \/
+  s_mem s' = touch_first (sig_matches p) (s_clock s) (s_mem s) \/
   (exists t' r0, tcell_inspect t p = (t', r0) /\
      s_mem s' = if stores (r_level (fst (after_treg g r0 (s_rec s))))
-                then s_mem s ++ [mkSig 0 (p_vh p) (p_sh p) (r_level (fst (after_treg g r0 (s_rec s))))
-                                       (r_action (fst (after_treg g r0 (s_rec s))))]
+                then mem_store (g_cap g) (s_clock s) (s_mem s)
+                       (mkSig 0 (p_vh p) (p_sh p) (r_level (fst (after_treg g r0 (s_rec s))))
+                              (r_action (fst (after_treg g r0 (s_rec s)))) 0 0)
                 else s_mem s).
 Proof.
   intros g s t p s' out Ht H. unfold sys_inspect in H. rewrite Ht in H. cbn [orb] in H.
@@ -932,17 +985,21 @@ Proof.
     { intros t' r0 TI. unfold within_one_step. rewrite after_treg_level.
       rewrite <- (tcell_inspect_wf _ _ _ _ TI). apply after_treg_action. eapply tcell_inspect_wf; eauto. }
     split.
-    + destruct (sys_inspect_mem g s t p s' out Ht H) as [->|[t' [r0 [TI E]]]]; [exact M|].
-      rewrite E. destruct (stores _); [|exact M].
-      apply Forall_app. split; [exact M|]. constructor; [|constructor]. cbn. eapply W; eauto.
+    + destruct (sys_inspect_mem g s t p s' out Ht H) as [E|[t' [r0 [TI E]]]]; rewrite E.
+      * apply touch_first_ok. exact M.
+      * destruct (stores _); [|exact M]. apply mem_store_ok; [exact M|]. unfold sig_within. cbn. eapply W; eauto.
     + intros p' r sp Ep Eo. inversion Ep; subst p'. subst out.
       destruct (sys_inspect_inv g s t p s' _ Ht H) as [[m [_ [_ [R [O _]]]]]|[t' [r0 [TI [O _]]]]].
       * inversion O; subst. cbn. unfold recall in R. apply find_some in R. destruct R as [I _].
-        unfold mem_ok in M. rewrite Forall_forall in M. apply M. exact I.
+        unfold mem_ok in M. rewrite Forall_forall in M. apply (M m). exact I.
       * inversion O; subst. eapply W; eauto.
-  - (* store *) inversion H; subst. cbn. split; [|intros; discriminate].
-    apply Forall_app. split; [exact M|]. constructor; [exact OK|constructor].
+  - (* store *) inversion H; subst. cbn. split; [|intros; discriminate]. apply mem_store_ok; assumption.
   - (* forget *) inversion H; subst. cbn. split; [|intros; discriminate]. apply remove_nth_Forall. exact M.
+  - (* clear *) inversion H; subst. cbn. split; [constructor|intros; discriminate].
+  - (* import *) destruct (mem_import _ _ _ _) as [mem' imp'] eqn:MI. inversion H; subst. cbn.
+    split; [|intros; discriminate]. change mem' with (fst (mem', imp')). rewrite <- MI. apply mem_import_ok; assumption.
+  - (* prune_old *) inversion H; subst. cbn. split; [|intros; discriminate]. apply filter_ok. exact M.
+  - (* touch *) inversion H; subst. cbn. split; [|intros; discriminate]. apply touch_first_ok. exact M.
   - (* train *) unfold sys_train in H. split; [|intros; discriminate].
     destruct p as [p|]; [|inversion H; subst; exact M].
     destruct (_ <? _); [inversion H; subst; exact M|]. destruct (_ <=? _); [inversion H; subst; exact M|].
@@ -961,4 +1018,120 @@ Proof.
     destruct H as [H|H].
     + inversion H; subst. eapply W; reflexivity.
     + eapply IH; eauto.
+Qed.
+
+(* ---------------------------------------------------------------------- *)
+(* memory maintenance really forgets                                        *)
+
+Lemma prune_old_forgets : forall rnd lg g s age s' out,
+  sys_step rnd lg g s (OPruneOld age) = (s', out) ->
+  forall m, In m (s_mem s') -> In m (s_mem s) /\ s_clock s - age < m_created m.
+Proof.
+  intros rnd lg g s age s' out H m I. cbn [sys_step] in H. inversion H; subst. cbn in I.
+  unfold mem_prune_old in I. apply filter_In in I. destruct I as [I C]. split; [exact I|lia].
+Qed.
+
+(* a fingerprint whose only matching signatures have aged out is not remembered
+   after prune_old — whatever is stored, imported or touched afterwards about
+   OTHER patterns *)
+Definition other_pattern (p : peptide) (m : msig) : Prop := sig_matches p m = false.
+
+Definition keeps_forgotten (p : peptide) (o : op) : Prop :=
+  match o with
+  | OStore m => other_pattern p m
+  | OImport items => Forall (other_pattern p) items
+  | OInspect _ | OTrain _ => False       (* an inspection may legitimately store the pattern again *)
+  | _ => True
+  end.
+
+Definition not_remembered (p : peptide) (mem : list msig) : Prop := Forall (other_pattern p) mem.
+
+Lemma not_remembered_recall : forall p mem, not_remembered p mem -> recall mem p = None.
+Proof.
+  intros p mem H. unfold recall. induction H as [|x l Hx Hl IH]; cbn; [reflexivity|].
+  unfold other_pattern in Hx. rewrite Hx. exact IH.
+Qed.
+
+Lemma touch_first_other : forall p f now mem, not_remembered p mem -> not_remembered p (touch_first f now mem).
+Proof.
+  intros p f now mem H. induction H as [|x l Hx Hl IH]; cbn; [constructor|].
+  destruct (f x); constructor; auto.
+Qed.
+
+Lemma remove_first_other : forall p f mem, not_remembered p mem -> not_remembered p (remove_first f mem).
+Proof.
+  intros p f mem H. induction H as [|x l Hx Hl IH]; cbn; [constructor|].
+  destruct (f x); [exact Hl|constructor; auto].
+Qed.
+
+Lemma mem_import_other : forall p cap items imp mem,
+  not_remembered p mem -> Forall (other_pattern p) items -> not_remembered p (fst (mem_import cap imp mem items)).
+Proof.
+  intros p cap items. induction items as [|m r IH]; intros imp mem H F; cbn [mem_import fst]; [exact H|].
+  inversion F; subst. destruct (_ <? _); apply IH; auto.
+  apply Forall_app. split; [exact H|]. constructor; [assumption|constructor].
+Qed.
+
+Lemma keeps_forgotten_step : forall rnd lg g p s o s' out,
+  not_remembered p (s_mem s) -> keeps_forgotten p o -> sys_step rnd lg g s o = (s', out) ->
+  not_remembered p (s_mem s').
+Proof.
+  intros rnd lg g p s o s' out N K H. destruct o; cbn [sys_step keeps_forgotten] in *; try contradiction;
+    try (inversion H; subst; cbn; exact N).
+  - inversion H; subst. cbn. unfold mem_store. apply Forall_app. split.
+    + destruct (_ <=? _); [|exact N]. destruct (s_mem s); [constructor|]. apply remove_first_other. exact N.
+    + constructor; [exact K|constructor].
+  - inversion H; subst. cbn. apply remove_nth_Forall. exact N.
+  - inversion H; subst. constructor.
+  - destruct (mem_import _ _ _ _) as [mem' imp'] eqn:MI. inversion H; subst. cbn.
+    change mem' with (fst (mem', imp')). rewrite <- MI. apply mem_import_other; assumption.
+  - inversion H; subst. cbn. unfold mem_prune_old. clear H. induction N as [|x l Hx Hl IH]; cbn; [constructor|].
+    destruct (_ <? _); [constructor|]; auto.
+  - inversion H; subst. cbn. apply touch_first_other. exact N.
+Qed.
+
+Lemma keeps_forgotten_final : forall rnd lg g p ops s,
+  not_remembered p (s_mem s) -> Forall (keeps_forgotten p) ops ->
+  not_remembered p (s_mem (final rnd lg g s ops)).
+Proof.
+  intros rnd lg g p ops. induction ops as [|o ops IH]; intros s N K; cbn [final]; [exact N|].
+  inversion K; subst. apply IH; [|assumption].
+  destruct (sys_step rnd lg g s o) as [sb out] eqn:E. cbn [fst]. eapply keeps_forgotten_step; eauto.
+Qed.
+
+(* After prune_old has removed every signature matching fingerprint p (all of
+   them were older than max_age), and whatever maintenance follows about other
+   patterns (store with capacity pruning, import, prune_old, direct edits,
+   clock, flags, resets), the next inspection of p is NOT answered from memory:
+   it is reported CONFIRMED / CRITICAL only with a canary failure, a manual flag
+   or a repeated anomaly. *)
+Lemma forgotten_threat_proof : forall rnd g s0 age ops s1 p s2 r sp,
+  (forall m, In m (s_mem s0) -> sig_matches p m = true -> m_created m <= s_clock s0 - age) ->
+  Forall (keeps_forgotten p) ops ->
+  final rnd false g s0 (OPruneOld age :: ops) = s1 ->
+  sys_step rnd false g s1 (OInspect (Some p)) = (s2, OutResp r sp) ->
+  r_viol r <> [9] /\
+  (threat r -> exists t, s_tcell s1 = Some t /\ check (t_prof t) p <> [] /\
+                         (canary_failed (t_prof t) p = true \/ t_manual t = true \/ t_rep t <= t_anom t + 1)).
+Proof.
+  intros rnd g s0 age ops s1 p s2 r sp OLD K F H.
+  assert (N1 : not_remembered p (s_mem s1)).
+  { subst s1. cbn [final sys_step fst].
+    assert (N0 : not_remembered p (mem_prune_old (s_clock s0) age (s_mem s0))).
+    { unfold not_remembered, mem_prune_old. apply Forall_forall. intros m I. apply filter_In in I.
+      destruct I as [I C]. unfold other_pattern. destruct (sig_matches p m) eqn:E; [|reflexivity].
+      specialize (OLD m I E). lia. }
+    apply keeps_forgotten_final; [exact N0|exact K]. }
+  cbn [sys_step] in H. destruct (s_tcell s1) as [t|] eqn:Ht.
+  2:{ unfold sys_inspect in H. rewrite Ht in H. discriminate. }
+  destruct (sys_inspect_inv g s1 t p s2 _ Ht H) as [[m [_ [_ [R _]]]]|[t' [r0 [TI [O _]]]]].
+  - rewrite (not_remembered_recall p _ N1) in R. discriminate.
+  - inversion O; subst. split.
+    + rewrite after_treg_viol. unfold tcell_inspect in TI. destruct (is_anergic t).
+      * inversion TI; subst. discriminate.
+      * destruct (determine_response _ _ _ _). inversion TI; subst. cbn.
+        unfold check, viol. intros E.
+        repeat match type of E with context [if ?b then _ else _] => destruct b end; cbn in E; discriminate.
+    + intros T. apply after_treg_threat in T; [|eapply tcell_inspect_wf; eauto].
+      destruct (tcell_inspect_threat _ _ _ _ TI T) as [_ [C S2]]. exists t. auto.
 Qed.
